@@ -80,6 +80,10 @@ CHECKS["C16"] = ("order", "model_checking",
    "bounded exhaustive exploration of the configuration dimensions the property names, on libraries built to contain ties: every permutation of insert order (from empty and after every preloaded subset), every rayon pool size 1..16 (pool size asserted inside the pool), every file creation order on disk, and hash-map iteration orders by coverage closure (builds are repeated with fresh RandomState until every permutation of the input map's and of Graph::keys() order has been observed; closure is reported); the canonical dump (formatted files, titles, backlink SETS, outline paths, ORDERED search results) must equal the single-threaded reference",
    "rayon's work-stealing order inside a pool cannot be controlled with anything installed: pool sizes are enumerated, steal orders are only re-sampled (labelled as such in the evidence); the order of `references` locations is not compared because the statement speaks of backlink sets",
    "explicit-state enumeration of configurations (permutations, pool sizes, hash orders by closure) against the implementation, differential oracle", "§5 C16")
+CHECKS["C07"] = ("docspace", "model_checking",
+   "bounded exhaustive exploration: all heading-level sequences over levels 1-6 up to the bound (ATX, setext, with and without bodies), the block-grammar forests with nested / mixed lists, multi-block items and quotes, and ordered lists around the 9/10 and 99/100 padding thresholds are formatted by the real code; an independent outline extractor must give the same structure (heading order and text, container path and nearest preceding heading of every block, list kinds and item counts) and the output's document-level heading levels must be well-nested and unchanged when the input's were",
+   "heading levels inside quotes / items are not compared; link texts inside headings may be refreshed",
+   "explicit-state enumeration of the input space against the implementation with a reference-model oracle", "§5 C07")
 NOT_APPLICABLE = {}
 manifest = {
  "version": 1,
